@@ -64,6 +64,12 @@ fn heap(payload: &str) -> String {
                 (h.copy_slice_to_end(lo.parse().unwrap_or(0), hi.parse().unwrap_or(0)) as u8).to_string()
             }
             "T" => { h.truncate(arg.parse().unwrap_or(0)); "1".into() }
+            "F" => {
+                // growth requests number from..from+count (counted from now) fail
+                let (a, b) = arg.split_once(',').unwrap_or(("0", "0"));
+                vh::set_heap_growth_failure(a.parse().unwrap_or(0), b.parse().unwrap_or(0));
+                "1".into()
+            }
             "Z" => vh::VHeap::compute_pstr_size(std::str::from_utf8(&unhex(arg)).unwrap_or("")).to_string(),
             "D" => h.bytes().iter().map(|b| format!("{:02x}", b)).collect(),
             "N" => { let (s, t) = h.scan(arg.parse().unwrap_or(0)); format!("{}:{}", s.bytes().map(|b| format!("{:02x}", b)).collect::<String>(), t) }
@@ -71,6 +77,7 @@ fn heap(payload: &str) -> String {
         };
         out.push(format!("{},{},{}", h.byte_len(), h.byte_cap(), v));
     }
+    vh::set_heap_growth_failure(0, 0);
     out.join(";")
 }
 
